@@ -568,7 +568,8 @@ func (in *Inst) instr(ins ssa.Instruction, st *State) {
 	case *ssa.Send:
 		e.note("channel send is a no-op in the sequential abstraction")
 	case *ssa.Select:
-		e.note("select is a non-deterministic choice in the sequential abstraction")
+		e.note("select is a non-deterministic choice in the sequential abstraction; the statement is an event `select` (argN: channel of case N) for call-site clauses")
+		in.selectEvent(x, st)
 		in.vals[x] = e.freshVal(in.name(x), x.Type(), st)
 		// index is within the number of states (or -1 for default)
 		v := in.vals[x]
